@@ -2,7 +2,8 @@
    Statements only; proofs live in theories/MatrixFunctionsProofs.v.
    Model: theories/MatrixFunctions.v (matrix_inverse_root, eigen path given the recorded eigh answer).
    [R_ops rnd] is the real-number instance of the scalar interface; [rnd] is the binary32 rounding applied to
-   the exponent -1/root.  [eigh_contract rnd n M L Q] := M = Q diag(L) Q^T /\ Q^T Q = I /\ Q Q^T = I.
+   the exponent -1/root.  [eigh_contract rnd n M L Q] := M = Q diag(L) Q^T /\ Q^T Q = I  ([morth_cols]; Q Q^T = I is
+   derived: C11_left_inverse_is_right_inverse).
    No positive-semidefiniteness assumption anywhere in this file. *)
 From Coq Require Import List ZArith Reals.
 From Shampoo Require Import Scalar Matrix MatrixProofs MatrixFunctions MatrixFunctionsProofs.
@@ -16,14 +17,14 @@ Print Assumptions C11_eigen_root_sym.
 
 (* x^T X x > 0 for every x <> 0 *)
 Theorem C11_eigen_root_pd : forall rnd n p q eps enh L Q x,
-  morth_rows (R_ops rnd) n Q -> nonzero n x -> 0 < qform (R_ops rnd) n (eigen_X (R_ops rnd) n p q eps enh L Q) x.
+  morth_cols (R_ops rnd) n Q -> nonzero n x -> 0 < qform (R_ops rnd) n (eigen_X (R_ops rnd) n p q eps enh L Q) x.
 Proof. exact eigen_root_pd. Qed.
 Print Assumptions C11_eigen_root_pd.
 
 (* every eigenvalue phi(lambda_i + s + eps) is at most eps^e (e = the negative exponent actually used), and
    x^T X x <= eps^e x^T x *)
 Theorem C11_eigen_root_eig_le : forall rnd n p q eps enh L Q,
-  0 < eps -> expo (R_ops rnd) p q < 0 -> morth_rows (R_ops rnd) n Q ->
+  0 < eps -> expo (R_ops rnd) p q < 0 -> morth_cols (R_ops rnd) n Q ->
   (forall i, (i < n)%nat -> eigen_d rnd n p q eps enh L i <= Rpower eps (expo (R_ops rnd) p q))
   /\ forall x, qform (R_ops rnd) n (eigen_X (R_ops rnd) n p q eps enh L Q) x
                <= Rpower eps (expo (R_ops rnd) p q) * dot (R_ops rnd) n x x.
@@ -37,9 +38,16 @@ Theorem C11_eigen_root_commutes : forall rnd n p q eps enh L Q A,
 Proof. exact eigen_root_commutes. Qed.
 Print Assumptions C11_eigen_root_commutes.
 
+(* for square matrices Q^T Q = I implies Q Q^T = I (n+1 vectors of R^n are dependent): the oracle contract
+   needs only orthonormal columns *)
+Theorem C11_left_inverse_is_right_inverse : forall rnd n (A B : mat R),
+  meq n (mmul (R_ops rnd) n B A) (mid (R_ops rnd)) -> meq n (mmul (R_ops rnd) n A B) (mid (R_ops rnd)).
+Proof. exact left_inv_right_inv. Qed.
+Print Assumptions C11_left_inverse_is_right_inverse.
+
 (* two valid decompositions of the same matrix give the same Q f(L) Q^T *)
 Theorem C11_spectral_fun_unique : forall rnd n Q L Q' L' (f : R -> R),
-  morth (R_ops rnd) n Q -> morth (R_ops rnd) n Q' -> meq n (spec rnd n Q L) (spec rnd n Q' L') ->
+  morth_cols (R_ops rnd) n Q -> morth_cols (R_ops rnd) n Q' -> meq n (spec rnd n Q L) (spec rnd n Q' L') ->
   meq n (spec rnd n Q (fun i => f (L i))) (spec rnd n Q' (fun i => f (L' i))).
 Proof. exact spectral_fun_unique. Qed.
 Print Assumptions C11_spectral_fun_unique.
@@ -53,7 +61,7 @@ Print Assumptions C11_eigen_X_unique.
 
 (* inverse_root(P A P^T) = P inverse_root(A) P^T for orthogonal P *)
 Theorem C11_eigen_root_equivariant : forall rnd n p q eps P A L Q L' Q', (0 < n)%nat ->
-  morth (R_ops rnd) n P ->
+  morth_cols (R_ops rnd) n P ->
   eigh_contract rnd n A L Q ->
   eigh_contract rnd n (mmul (R_ops rnd) n (mmul (R_ops rnd) n P A) (mtrans P)) L' Q' ->
   meq n (eigen_X (R_ops rnd) n p q eps false L' Q')
